@@ -541,6 +541,8 @@ class Gen:
             body = self.block(sub)
             orelse = self.block(sub) if self.r.random() < 0.5 else []
             return [('if', self.r.choice(['cb', 'cb', 'cn', 'ct']), body, orelse)]
+        if ctx['inloop'] and r < 0.72 and self.r.random() < 0.85:
+            return self.stmts_again(ctx)                    # (mostly) no loops inside loops: paths explode
         if r < 0.62 and not deep:
             return [('while', self.r.choice(['cb', 'cb', 'cn', 'ct']),
                      self.block(dict(ctx, depth=ctx['depth'] + 1, inloop=True)))]
@@ -570,6 +572,10 @@ class Gen:
         if r < 0.985:
             return [('expr', ('ext', 'eid', [self.num_expr(ctx, 1)]))]
         return [('pass',)]
+
+    def stmts_again(self, ctx):
+        self.budget += 1
+        return self.stmts(ctx)
 
     def fdef(self, ctx):
         self.nfn += 1
